@@ -124,23 +124,27 @@ func (x *exec) monHavoc(mi *monInfo, owner PtrV, s *State) {
 	e := x.e
 	c := e.C
 	for _, tg := range x.monProtected(mi, owner, s) {
-		so, ok := e.heapSorts[tg.key]
-		if !ok {
-			continue
+		so := tg.so
+		if so == nil {
+			var ok bool
+			so, ok = e.heapSorts[tg.key]
+			if !ok {
+				continue
+			}
 		}
 		h := e.heapGet(s, tg.key, so)
 		switch {
 		case tg.row:
 			// rows [off, off+ln) of row tg.ref
 			row := c.Select(h, tg.ref)
-			nr := c.Fresh("lock.row", so.Elem)
+			nr := c.Fresh("lock.row{"+tg.key+"}", so.Elem)
 			k := c.BoundVar("k", Int)
 			in := c.And(c.Le(tg.off, k), c.Lt(k, c.Add(tg.off, tg.ln)))
 			sel := c.Select(nr, k)
 			nr.AddFact(c.Quant("forall", []*Term{k}, c.Implies(c.Not(in), c.Eq(sel, c.Select(row, k))), [][]*Term{{sel}}))
 			s.heap[tg.key] = c.Store(h, tg.ref, nr)
 		case tg.ref != nil:
-			s.heap[tg.key] = c.Store(h, tg.ref, c.Fresh("lock.v", so.Elem))
+			s.heap[tg.key] = c.Store(h, tg.ref, c.Fresh("lock.v{"+tg.key+"}", so.Elem))
 		}
 	}
 	if mi.bytes {
@@ -149,7 +153,7 @@ func (x *exec) monHavoc(mi *monInfo, owner PtrV, s *State) {
 		key := "A:uint8"
 		so := Array(Int, Array(Int, BV8))
 		h := e.heapGet(s, key, so)
-		nh := c.Fresh("lock.bytes", so)
+		nh := c.Fresh("lock.bytes{A:uint8}", so)
 		priv := x.privateArrays(s)
 		for _, a := range priv {
 			nh = c.Store(nh, a, c.Select(h, a))
@@ -160,9 +164,13 @@ func (x *exec) monHavoc(mi *monInfo, owner PtrV, s *State) {
 			if !strings.HasSuffix(tg.key, "#arr") {
 				continue
 			}
-			so, ok := e.heapSorts[tg.key]
-			if !ok {
-				continue
+			so := tg.so
+			if so == nil {
+				var ok bool
+				so, ok = e.heapSorts[tg.key]
+				if !ok {
+					continue
+				}
 			}
 			hk := e.heapGet(s, tg.key, so)
 			for _, a := range priv {
@@ -193,6 +201,13 @@ func (x *exec) privateArrays(s *State) []*Term {
 			}
 		}
 	}
+	// array-typed local variables (e.g. a digest) are private as well
+	for _, a := range x.e.localArrays {
+		if !seen[a] {
+			seen[a] = true
+			out = append(out, a)
+		}
+	}
 	return out
 }
 
@@ -207,6 +222,10 @@ func (x *exec) monitorAcquireImpl(s *State, p PtrV, k string, write bool, pos to
 	if !ok {
 		return
 	}
+	if s.owners == nil {
+		s.owners = map[string]PtrV{}
+	}
+	s.owners[k] = owner
 	x.monHavoc(mi, owner, s)
 	if e.Trace && s.pc.IsFalse() {
 		fmt.Printf("  pc false after havoc at lock %s\n", k)
@@ -217,7 +236,7 @@ func (x *exec) monitorAcquireImpl(s *State, p PtrV, k string, write bool, pos to
 			fmt.Printf("  pc false after assuming invariant %s\n", cl.Label)
 		}
 	})
-	if prev, ok := s.snap["unlock:"+k]; ok {
+	if prev, ok := s.snap["unlock:"+k]; ok && prev != nil {
 		x.monClauses(mi, "rely", owner, s, prev, func(cl *Clause, g *Term) { s.assume(c, g) })
 	}
 	s.snap["lock:"+k] = s.clone()
@@ -249,6 +268,10 @@ func (x *exec) monCheckRelease(mi *monInfo, owner PtrV, s *State, k string, pos 
 		x.oblige("minv", cl.Label+"@"+what, pos, s, g, cl.Text)
 	})
 	if snap, ok := s.snap["lock:"+k]; ok {
+		if snap == nil {
+			x.oblige("guarantee", "snapshot@"+what, pos, s, x.e.C.False(), "paths with different lock acquisition points merge inside the critical section (outside the handled subset)")
+			return
+		}
 		x.monClauses(mi, "guarantee", owner, s, snap, func(cl *Clause, g *Term) {
 			x.oblige("guarantee", cl.Label+"@"+what, pos, s, g, cl.Text)
 		})
@@ -422,9 +445,66 @@ func (x *exec) afterRelockingCall(s *State, mi *monInfo, owner PtrV, k string) {
 	c := x.e.C
 	x.monHavoc(mi, owner, s)
 	x.monClauses(mi, "invariant", owner, s, s, func(cl *Clause, g *Term) { s.assume(c, g) })
-	if prev, ok := s.snap["unlock:"+k]; ok {
+	if prev, ok := s.snap["unlock:"+k]; ok && prev != nil {
 		x.monClauses(mi, "rely", owner, s, prev, func(cl *Clause, g *Term) { s.assume(c, g) })
 	}
 	s.snap["lock:"+k] = s.clone()
 	s.snap["lock:"+k].snap = map[string]*State{}
+}
+
+// monLoopHead: on every arrival at a loop head inside a critical section the
+// guarantee is asserted against the current baseline ...
+func (x *exec) monLoopHead(li *loopInfo, s *State, what string) {
+	e := x.e
+	if e.dry > 0 {
+		return
+	}
+	for _, k := range sortedStateKeys(s.held) {
+		if h := s.held[k]; h.IsFalse() || strings.HasSuffix(k, "#r") {
+			continue
+		}
+		mi := e.monitorByLock(k)
+		if mi == nil {
+			continue
+		}
+		owner, ok := x.ownerOfHeld(s, k)
+		if !ok {
+			continue
+		}
+		if snap, ok := s.snap["lock:"+k]; ok && snap != nil {
+			x.monClauses(mi, "guarantee", owner, s, snap, func(cl *Clause, g *Term) {
+				x.oblige("guarantee", fmt.Sprintf("%s@loop%d.%s", cl.Label, li.ordinal, what), li.pos, s, g, cl.Text)
+			})
+		}
+	}
+}
+
+// ... and monRebase makes the (havocked) state at the loop head the new
+// baseline: the critical section's guarantee is thus checked piecewise, which
+// is sound for guarantees closed under composition (stated in DESIGN.md).
+func (x *exec) monRebase(hs *State) {
+	for _, k := range sortedStateKeys(hs.held) {
+		if h := hs.held[k]; h.IsFalse() || strings.HasSuffix(k, "#r") {
+			continue
+		}
+		if _, ok := hs.snap["lock:"+k]; ok {
+			b := hs.clone()
+			b.snap = map[string]*State{}
+			hs.snap["lock:"+k] = b
+		}
+	}
+}
+
+// ownerOfHeld finds the owner object of a held monitor lock.
+func (x *exec) ownerOfHeld(s *State, k string) (PtrV, bool) {
+	t := x.topExec()
+	for _, lo := range t.lockedOwners {
+		if lo.key == k {
+			return lo.owner, true
+		}
+	}
+	if o, ok := s.owners[k]; ok {
+		return o, true
+	}
+	return PtrV{}, false
 }
